@@ -3,3 +3,4 @@ pub mod model;
 pub mod print;
 pub mod refcodec;
 pub mod astjson;
+pub mod gen;
